@@ -181,7 +181,7 @@ PROPS['C10'] = {
     'modes': [(0, 6, 'blocks'), (0, 2, 'extra'), (1, 6, 'blocks'), (1, 2, 'extra')],
     'budget': {'quick': 60, 'thorough': 400},
     'deciding': {'C10.mv': (100, 1000), 'C10.as_matrix': (100, 1000), 'C10.transpose': (100, 1000),
-                 'C10.inverse': (15, 150), 'C10.reject': (12, 125), 'C10.products': (15, 150)},
+                 'C10.inverse': (15, 150), 'C10.reduce': (100, 1000), 'C10.reject': (12, 125), 'C10.products': (15, 150)},
     'require_hist': {'quick': {'C10.class': ['row', 'diag', 'col'], 'C10.products': ['blocks/row@diag', 'blocks/diag@col', 'blocks/diag@diag', 'blocks/row@col']},
                      'thorough': {'C10.class': ['row', 'diag', 'col'], 'C10.products': ['blocks/row@diag', 'blocks/diag@col', 'blocks/diag@diag', 'blocks/row@col']}},
     'rule': 'cases = block row/diagonal/column operators over list, tuple, dict (unsorted keys), nested, one-side-nested, single-operator '
@@ -220,7 +220,7 @@ PROPS['C11'] = {
 PROPS['C13'] = {
     'modes': [(0, 8, 'axes'), (1, 8, 'axes')],
     'budget': {'quick': 20, 'thorough': 130},
-    'deciding': {'C13.mv': (375, 3750), 'C13.construct': (375, 3750), 'C13.roundtrip': (200, 2000), 'C13.permutation': (125, 1250)},
+    'deciding': {'C13.mv': (375, 3750), 'C13.construct': (375, 3750), 'C13.roundtrip': (200, 2000), 'C13.permutation': (125, 1250), 'C13.pair': (30, 300)},
     'require_hist': {'quick': {'C13.mv.class': ['MoveAxisOperator', 'RavelOperator', 'ReshapeOperator', 'ReshapeTransposeOperator'],
                                'C13.construct': ['ravel:accepted', 'ravel:refused', 'reshape:accepted', 'reshape:refused']},
                      'thorough': {'C13.mv.class': ['MoveAxisOperator', 'RavelOperator', 'ReshapeOperator', 'ReshapeTransposeOperator']}},
@@ -324,9 +324,9 @@ PROPS['C17'] = {
     'modes': [(0, 4, 'pixel'), (0, 4, 'healpix'), (1, 4, 'pixel'), (1, 4, 'healpix')],
     'budget': {'quick': 50, 'thorough': 300},
     'deciding': {'C17.pixel2index': (12500, 125000), 'C17.bijection': (100, 100), 'C17.wide': (4, 10), 'C17.healpix': (25000, 250000),
-                 'C17.coverage': (10, 100)},
-    'require_hist': {'quick': {'C17.healpix.nside': [str(2 ** k) for k in range(14)]},
-                     'thorough': {'C17.healpix.nside': [str(2 ** k) for k in range(14)]}},
+                 'C17.coverage': (10, 100), 'C17.passthrough': (20000, 100000)},
+    'require_hist': {'quick': {'C17.healpix.nside': [str(2 ** k) for k in range(14)], 'C17.passthrough.nside': [str(2 ** k) for k in range(14)]},
+                     'thorough': {'C17.healpix.nside': [str(2 ** k) for k in range(14)], 'C17.passthrough.nside': [str(2 ** k) for k in range(14)]}},
     'rule': 'cases = (pixel) 1-3-dimensional maps with dimensions 1..6, 400 real coordinates each: strictly inside, mixed inside/outside, '
             'within 1e-3/1e-9 of pixel borders, far outside (+-1e6), float32 and float64 coordinates, judged against a NumPy row-major '
             'reference (first coordinate fastest, -1 outside; coordinates within 1e-6 (float64) / 2e-3 (float32) of a half-integer accept '
